@@ -57,7 +57,18 @@ pub fn dispatch(op: &str, a: &[&str]) -> Option<Ans> {
             let mem: usize = a[1].parse().unwrap();
             let hl: usize = a[2].parse().unwrap();
             let (pwd, salt, wrong) = (unhex(a[3]), unhex(a[4]), unhex(a[5]));
-            let cfg = Config::interactive().with_opslimit(ops).with_memlimit(mem).with_hash_length(hl).with_salt_length(salt.len());
+            // the builder calls are applied in an order that depends on the arguments: the result must not depend on it
+            let mut cfg = Config::interactive();
+            let order = (ops as usize + mem / 1024 + hl + salt.len()) % 6;
+            let perms: [[u8; 4]; 6] = [[0, 1, 2, 3], [3, 2, 1, 0], [1, 0, 3, 2], [2, 3, 0, 1], [1, 2, 3, 0], [3, 0, 1, 2]];
+            for step in perms[order] {
+                cfg = match step {
+                    0 => cfg.with_opslimit(ops),
+                    1 => cfg.with_memlimit(mem),
+                    2 => cfg.with_hash_length(hl),
+                    _ => cfg.with_salt_length(salt.len()),
+                };
+            }
             let h: Result<VecPwHash, _> = PwHash::hash_with_salt(&pwd, salt.clone(), cfg.clone());
             match h {
                 Err(_) => ("err".into(), "n/a".into()),
